@@ -58,7 +58,7 @@ func NewNormalIWishartDistribution(kappa, nu Scalar, mu Vector, lambda Matrix) (
   result := NormalIWishartDistribution{
     InverseWishartDistribution: *iw,
     Kappa : kappa.CloneScalar(),
-    Mu    : mu,
+    Mu    : mu.CloneVector(),
     r1    : NullScalar(t),
     r2    : NullScalar(t),
     sigmap: NullDenseMatrix(t, n, n) }
